@@ -147,6 +147,13 @@ pub fn check_linear_rendering(lm: &LinearModel, origin: &str, sig: &str, l: &mut
                     l.violation("linear:domains-differ:propagation-step-limit-reached", d.clone(), case(&d));
                 } else if d.starts_with("variables/domains differ") && only_tightened(lm, &lm2) && lm.domain().values().any(|v| matches!(v.get_type(), rooc::VariableType::IntegerRange(_, _))) {
                     l.violation("linear:domains-differ:integer-rounding-not-fed-back-into-propagation", d.clone(), case(&d));
+                } else if d == "rows differ: only in first [], only in second [\"FALSE\"]"
+                    && lm.domain().values().any(|v| matches!(v.get_type(), rooc::VariableType::IntegerRange(_, _)))
+                    && LmSpec::from_rooc(lm).map(|s| matches!(crate::exact::solve_milp(&s.to_exact()), crate::exact::LpResult::Infeasible)).unwrap_or(false)
+                {
+                    // the model is infeasible already (exact oracle) but only the recompilation notices it and adds
+                    // the explicit contradiction row: the rounded integer range is not fed back into propagation
+                    l.violation("linear:contradiction-row-appears-on-recompilation:integer-rounding-not-fed-back-into-propagation", d.clone(), case(&d));
                 } else {
                     l.violation(format!("linear:meaning-changed:{sig}"), d.clone(), case(&d));
                 }
@@ -396,7 +403,7 @@ pub fn run(mut run: Run) -> ! {
         name: "L2-direct-domains",
         n: 2,
         m: 1,
-        doms: vec![Dom::Free, Dom::NonNeg, Dom::NonNegB(1.0, 4.5), Dom::Real(-2.0, 3.0), Dom::Real(f64::NEG_INFINITY, 2.0), Dom::Real(-1.5, f64::INFINITY), Dom::Bool, Dom::Int(-3, 2)],
+        doms: vec![Dom::Free, Dom::NonNeg, Dom::NonNegB(1.0, 4.5), Dom::NonNegB(2.0, f64::INFINITY), Dom::NonNegB(0.0, 3.0), Dom::Real(-2.0, 3.0), Dom::Real(0.0, 3.0), Dom::Real(f64::NEG_INFINITY, 2.0), Dom::Real(-1.5, f64::INFINITY), Dom::Real(f64::NEG_INFINITY, -1.0), Dom::Bool, Dom::Int(-3, 2), Dom::Int(0, 1)],
         coefs: vec![0.0, 1.0, -2.5],
         rhss: vec![0.0, -2.0],
         rels: vec![Rel::Le, Rel::Ge, Rel::Eq],
